@@ -2,13 +2,13 @@ SPECIFICATION Spec
 CONSTANTS
   NF = 2
   MaxLen = 8
-  Kinds = {"mod", "add", "addempty", "del", "rename", "renmod", "copy", "modeonly", "modemod", "bin", "binadd", "modebin", "renmode", "sublog", "subshort", "binx"}
+  Kinds = {"mod", "add", "addempty", "del", "rename", "renmod", "copy", "modeonly", "modemod", "bin", "binadd", "modebin", "renmode", "sublog", "subshort", "binx", "renbin"}
   MaxHunks = 2
   MaxBody = 3
   Preamble = TRUE
   MaxConf = 1
   Buf = 1
-  Fixes = {"D1", "D14", "D2", "D18", "D19", "D20", "D21", "D23"}
+  Fixes = {"D1", "D14", "D2", "D18", "D19", "D20", "D21", "D23", "D24"}
   ColorOnly = TRUE
   Modes = {}
   ReplayLen = 0
